@@ -101,6 +101,8 @@ class KRun:
         self.events: list[Any] = []
         self.ev_waiters: list[list[int]] = []
         self.nF = 0
+        self.natives: dict[int, int] = {}
+        self.user_uncancels: dict[int, int] = {}
         self.nT = 1
         self.nL = 0
         self.nG = 0
@@ -320,13 +322,17 @@ class KRun:
                 t = self.task_obj[ent[0]]
                 if not t.done():
                     self.emit(f"{me} ncancel {ent[0]}", "ok")
+                    self.natives[ent[0]] = self.natives.get(ent[0], 0) + 1
                     self.hist("ncancel", ent[0])
                     t.cancel()
         elif k == "uncancel":
-            self.emit(f"{me} uncancel", "ok")
-            before = self.task_obj[me].cancelling()
-            self.task_obj[me].uncancel()
-            self.hist("uncancel", me, before)
+            # only native requests are taken back by user code (Task.uncancel's contract)
+            if self.natives.get(me, 0) > self.user_uncancels.get(me, 0):
+                self.user_uncancels[me] = self.user_uncancels.get(me, 0) + 1
+                self.emit(f"{me} uncancel", "ok")
+                before = self.task_obj[me].cancelling()
+                self.task_obj[me].uncancel()
+                self.hist("uncancel", me, before)
         elif k == "hcancel":
             ent = self.task_by_name.get(s[1])
             if ent and ent[1] is not None:
